@@ -25,6 +25,26 @@ CHECKS = {
             "== is a specification model (Hopcroft-Karp bookkeeping not modelled; its boolean is compared). isfinite: executable "
             "model (acyclicity of the useful subgraph) validated by correspondence only - no theorem yet.",
             "", "7/C06"),
+    "C04": ("Coq theorems about the lazy product + generic graph-to-DFA builder + differential correspondence via proved comparator",
+            "Proved for all valid DFA pairs over a common alphabet and all words (unbounded): union, intersection, difference and symmetric "
+            "difference return a valid DFA whose verdict on every word is the Boolean operation of the operands' verdicts (every "
+            "complete/partial mix; relevance-flag skipping justified in the proof); different alphabets are refused; every finite expression "
+            "tree of the four binary operations evaluates to a valid DFA with the tree's semantics. complement / to_complete / to_partial: "
+            "executable models validated by correspondence (language equality with the source decided by the proved comparator, totality); "
+            "their language theorems are not proved yet (partial). minify=True results are judged by language here and by size in C05.",
+            "", "7/C04"),
+    "C07": ("Coq theorems about the subset construction (generic builder) and NFA.from_dfa + correspondence via proved comparators",
+            "Proved for all valid NFAs/DFAs (unbounded): whenever the subset construction returns (always up to 14 NFA states; fixed large "
+            "budget beyond) the result is a valid DFA with exactly the NFA's language; NFA.from_dfa gives a valid NFA with the DFA's language; "
+            "the comparators nfa_diff / nfa_dfa_diff used to judge implementation results decide language equality exactly. "
+            "eliminate_lambda: implementation results are judged on every run by the proved comparator (same language as the source), "
+            "validity, no empty-string key, all states reachable; the mirror model and its language theorem are part of C08 (partial here).",
+            "", "7/C07"),
+    "C09": ("Coq theorems about the verified NFA comparator (subset construction on the fly) + differential correspondence",
+            "Proved for all valid NFA pairs (unbounded): whenever == / != return (always for <= 14 states in total) they are exactly language "
+            "(in)equality; the answer is symmetric and equals DFA equality of the determinisations. Specification model: the union-find "
+            "bookkeeping of NFA.__eq__ is not modelled, its boolean is compared on generated pairs incl. built-equivalent pairs.",
+            "", "7/C09"),
 }
 
 PENDING = {}
